@@ -65,6 +65,17 @@ def fitTiltOpdSeg [Add R] [Sub R] [Mul R] [Div R] [Neg R] [RealLike R] [Zero R] 
     (segs : List ((Int → Int → R) × R × R)) (opd : Int → Int → R) : Int → Int → R :=
   fun i j => sumList segs fun s => (opd i j - tiltRamp s0 s1 px0 px1 s.1 s.2.1 s.2.2 i j) * s.1 i j
 
+section ramp
+variable {K : Type} [Add R] [Sub R] [Mul R] [Neg R] [RealLike R] [Mul K] [CxLike K R]
+/-- the input field multiplied by the phase ramp of a displacement `(sr, sc)` output samples (for `alpha` as in
+`ramp_is_opd_ramp` this is the phasor of the OPD ramp `thx*r*dx0 - thy*c*dx1`, `r`/`c` global pupil coordinates) -/
+def rampField (f : Fld K) (αr αc sr sc : R) : Fld K :=
+  { f with arr := { f.arr with get := fun x y => f.arr.get x y *
+      ((CxLike.expI (RealLike.twoPi * αr * RealLike.ofInt (cc f.arr.s0 x + f.o0) * sr) : K) *
+       CxLike.expI (RealLike.twoPi * αc * RealLike.ofInt (cc f.arr.s1 y + f.o1) * sc)) } }
+
+end ramp
+
 section history
 variable [Add R] [Sub R] [Mul R] [Div R] [Neg R] [RealLike R] [Zero R]
 /-- a plane's OPD/tilt history: OPD updates and tilt fits (with whatever coefficients the solver returned) -/
